@@ -59,6 +59,7 @@ def run(check: Check, repo: Repo, tier: str) -> None:
     X.attr_memo(check, repo, mods + [repo.mod("utilities.get_default_value_ast"), repo.mod("type.validate")])
     check.floor("ATTR-MEMO", 1, "object-attribute memos")
     X.collect_guard(check, repo)
+    X.visited_then_collected(check, repo)
     X.source_siblings(check, repo)
     X.leaf_always_coerced(check, repo)
     from rules import stream_rules as T5
